@@ -4,6 +4,7 @@ import (
 	"bufio"
 	"bytes"
 	"fmt"
+	"unicode/utf8"
 
 	"github.com/hashicorp/hcl/v2"
 	hcljson "github.com/hashicorp/hcl/v2/json"
@@ -82,6 +83,21 @@ func checkJSONScan(cx *lib.Ctx, src []byte, start hcl.Pos) {
 	}
 }
 
+// scanLinesKeep is a split function yielding each line *with* its terminator: every token but the last ends
+// in a newline, so the end of its range is the first column of the next line.
+func scanLinesKeep(data []byte, atEOF bool) (int, []byte, error) {
+	if atEOF && len(data) == 0 {
+		return 0, nil, nil
+	}
+	if i := bytes.IndexByte(data, '\n'); i >= 0 {
+		return i + 1, data[:i+1], nil
+	}
+	if atEOF {
+		return len(data), data, nil
+	}
+	return 0, nil, nil
+}
+
 func hasLoneCR(b []byte) bool {
 	for i, c := range b {
 		if c == '\r' && (i+1 >= len(b) || b[i+1] != '\n') {
@@ -101,8 +117,20 @@ func checkRangeScanner(cx *lib.Ctx, mode string, src []byte, start hcl.Pos) {
 	start.Byte = 0 // the scanner indexes its buffer with pos.Byte, so a fragment starts at byte 0 of its buffer
 	doc := mkDoc("rangescan", mode, src, start)
 	split := bufio.ScanLines
-	if mode == "words" {
+	switch mode {
+	case "words":
 		split = bufio.ScanWords
+	case "bytes":
+		split = bufio.ScanBytes
+	case "runes":
+		// (on malformed input ScanRunes substitutes U+FFFD for the bytes it advances over: Bytes() is then
+		// not a slice of the source, which is outside what the scanner can describe)
+		if !utf8.Valid(src) {
+			return
+		}
+		split = bufio.ScanRunes
+	case "lines-keep":
+		split = scanLinesKeep
 	}
 	type item struct {
 		rng hcl.Range
@@ -143,6 +171,9 @@ func checkRangeScanner(cx *lib.Ctx, mode string, src []byte, start hcl.Pos) {
 			if src[pos] == '\n' && cutoff < 0 {
 				cutoff = pos // a CRLF cut in two (ScanWords treats '\r' as a space): line counts are spoiled from here on
 			}
+		}
+		if cutoff < 0 && pos > 0 && src[pos] == '\n' && src[pos-1] == '\r' {
+			cutoff = pos // the same, whatever the recount makes of malformed bytes before the '\r' (ScanBytes, ScanRunes)
 		}
 		pos += adv
 	}
